@@ -154,20 +154,38 @@ class C32:
       diffs = modelcmp.compare(lib, m, m2, mode='upstream', skip=('signature',))
       if diffs:
         msg = '%s: save/reload at full precision changes the model: %s' % (name, modelcmp.fmt(diffs))
-        if unsafe and is_permutation_only(lib, m, m2):
+        dropped = self.explained_by_dropped_directive(m, spec, text, filedir)
+        if dropped:
+          for attr in dropped:
+            ck.violation(msg + '  [the writer does not save <compiler %s>; with the attribute re-inserted into the saved '
+                         'text the models are identical]' % attr, replay, bucket='compiler-%s-not-saved' % attr,
+                         fingerprint='compiler-%s-not-saved' % attr)
+          facts['known'] = True
+          facts['dropped'] = dropped
+        elif unsafe and is_permutation_only(lib, m, m2):
           ck.violation(msg + '  [elements inside a <frame>/<replicate> are written after their direct siblings: the '
                        'reloaded model has the same objects in a different id order]', replay, bucket=KNOWN_FP,
                        fingerprint=KNOWN_FP)
           facts['known'] = True
         else:
           raise Violation(msg, bucket='roundtrip17:' + diffs[0].field)
-      # second trip must be textually stable
+      # second trip: saving the reloaded spec must give text that compiles to the same model again (normally the very
+      # same text; a pure re-ordering of lines, e.g. a geom written after a child body, is cosmetic)
       text2 = self.save(s2, 17)
       if text2 != text:
-        a, b = text.split('\n'), text2.split('\n')
-        i = next((i for i in range(min(len(a), len(b))) if a[i] != b[i]), min(len(a), len(b)))
-        raise Violation('%s: second save differs from the first at line %d: %r vs %r' % (
-            name, i + 1, a[i][:160] if i < len(a) else None, b[i][:160] if i < len(b) else None), bucket='second-trip-text')
+        ck.label('second-trip-text-differs')
+        try:
+          m3, s3 = self.reload(text2, filedir)
+        except mj.MjError as e:
+          raise Violation('%s: second-trip XML does not load: %s' % (name, str(e)[:300]), bucket='second-trip-rejected')
+        lib.mj_deleteSpec(s3)
+        d3 = modelcmp.compare(lib, m2, m3, mode='upstream', skip=('signature',))
+        if d3:
+          a, b = text.split('\n'), text2.split('\n')
+          i = next((i for i in range(min(len(a), len(b))) if a[i] != b[i]), min(len(a), len(b)))
+          raise Violation('%s: second save/reload changes the model again: %s (texts differ first at line %d: %r vs %r)' % (
+              name, modelcmp.fmt(d3), i + 1, a[i][:120] if i < len(a) else None, b[i][:120] if i < len(b) else None),
+              bucket='second-trip:' + d3[0].field)
     finally:
       lib.mj_deleteSpec(s2)
     # default precision
@@ -203,6 +221,37 @@ class C32:
           raise Violation('%s: at default precision %s row %d differs by %.3g relative (%r vs %r)' % (
               name, f, i[0], w, float(a2[i]), float(b2[i])), bucket='roundtrip6-float:' + f)
     return facts
+
+  def explained_by_dropped_directive(self, m, spec, text, filedir):
+    """Known writer gap: <compiler settotalmass> / <compiler inertiagrouprange> are not written.  Returns the list of
+    attributes whose re-insertion into the saved text makes the reloaded model identical to the original, else []."""
+    from vf import mj
+    lib = self.lib
+    comp = Struct(lib, 'mjSpec', spec).compiler
+    cand = {}
+    if comp.settotalmass > 0:
+      cand['settotalmass'] = repr(float(comp.settotalmass))
+    igr = [int(x) for x in comp.inertiagrouprange]
+    if igr != [0, 5]:
+      cand['inertiagrouprange'] = '%d %d' % tuple(igr)
+    if not cand or '<compiler ' not in text:
+      return []
+    import itertools
+    keys = sorted(cand)
+    for r in range(1, len(keys) + 1):
+      for sub in itertools.combinations(keys, r):
+        ins = ''.join(' %s="%s"' % (k, cand[k]) for k in sub if (' %s="' % k) not in text.split('<compiler', 1)[1].split('>', 1)[0])
+        if not ins:
+          continue
+        t2 = text.replace('<compiler ', '<compiler' + ins + ' ', 1)
+        try:
+          mx, sx = self.reload(t2, filedir)
+        except mj.MjError:
+          continue
+        lib.mj_deleteSpec(sx)
+        if not modelcmp.compare(lib, m, mx, mode='upstream', skip=('signature',)):
+          return list(sub)
+    return []
 
   def lastxml_route(self, name, path):
     """mj_loadXML(path) -> mj_saveLastXML(file) -> compile: same model."""
@@ -275,11 +324,12 @@ def main(ck):
       if facts['known']:
         known_hits[0] += 1
         labels.append('known-finding-hit')
+        labels += ['dropped:' + a for a in facts.get('dropped', [])]
     finally:
       lib.mj_deleteSpec(s)
     nt = any(l in NT or l.startswith('compiler:') for l in labels)
     keep = [l for l in labels if l in NT or l.startswith(('compiler:', 'replicate:')) or l in (
-        'mesh', 'hfield', 'texture', 'material', 'keyframe', 'fullkey', 'frame-order-unsafe', 'known-finding-hit', 'pair',
+        'mesh', 'hfield', 'texture', 'material', 'keyframe', 'fullkey', 'frame-order-unsafe', 'known-finding-hit', 'dropped:settotalmass', 'dropped:inertiagrouprange', 'pair',
         'exclude', 'numeric', 'text', 'tuple', 'nuser', 'visual', 'statistic', 'meshfit', 'mocap', 'tendon:spatial',
         'tendon:fixed')]
     ck.case(nontrivial=nt, key=xml, sample=dict(route='xml', labels=keep[:14], xml=xml[:600]), labels=['route:xml'] + keep)
